@@ -80,10 +80,21 @@ def build_noisy(n_e, n_p, n_c, prog, noise_specs, zero=False, strip=False):
     return c
 
 
+POOL = {}
+COUNT = [0]
+
+
 def final_obs(circuit, backend, setting, noise_on, seed):
     from graphiq.backends.stabilizer.compiler import StabilizerCompiler
     from graphiq.backends.density_matrix.compiler import DensityMatrixCompiler
-    comp = StabilizerCompiler() if backend == "stabilizer" else DensityMatrixCompiler()
+    # one long-lived compiler object per backend for most compiles (noise switched on and off on the SAME object), a fresh
+    # one every fifth time
+    COUNT[0] += 1
+    if backend not in POOL or COUNT[0] % 5 == 0:
+        comp = StabilizerCompiler() if backend == "stabilizer" else DensityMatrixCompiler()
+        POOL.setdefault(backend, comp)
+    else:
+        comp = POOL[backend]
     comp.measurement_determinism = setting
     comp.noise_simulation = noise_on
     np.random.seed(seed)
